@@ -414,6 +414,10 @@ func DecodeDDSketch(b []byte, storeProvider store.Provider, indexMapping mapping
 func (s *DDSketch) DecodeAndMergeWith(bb []byte) error {
 	return s.decodeAndMergeWith(bb, func(b *[]byte, flag enc.Flag) error {
 		switch flag {
+		case enc.FlagCount:
+			// The exact count is encoded as a varfloat64 and is ignored.
+			_, err := enc.DecodeVarfloat64(b)
+			return err
 		case enc.FlagCount, enc.FlagSum, enc.FlagMin, enc.FlagMax:
 			// Exact summary stats are ignored.
 			if len(*b) < 8 {
